@@ -173,26 +173,26 @@ type nameBinding struct {
 
 // Frame executes one function body.
 type Frame struct {
-	noRecover bool // inlined from a non-deferred call: recover() returns nil here
+	noRecover    bool // inlined from a non-deferred call: recover() returns nil here
 	recoveredVal Term // standalone verification of a deferred recover helper: what recover() returns (spec name `recovered`)
-	vc        *VC
-	w         *World
-	fn        *ssa.Function
-	fc        *FuncContract
-	label     string
-	depth     int
-	top       bool
-	env       map[ssa.Value]Val
-	entryHeap *Heap
-	exits     []Exit
-	defers    []*ssa.Defer
-	loops     map[*ssa.BasicBlock]*loopInfo
-	back      map[[2]int]bool
-	callStack []*ssa.Function
-	inLoopOf  map[*ssa.BasicBlock][]*loopInfo
-	closures  map[string]*closureInfo
-	frameMS   *modSet   // targets of the function's modifies clause (top frame only)
-	dctx      *deferCtx // set while deferred calls run
+	vc           *VC
+	w            *World
+	fn           *ssa.Function
+	fc           *FuncContract
+	label        string
+	depth        int
+	top          bool
+	env          map[ssa.Value]Val
+	entryHeap    *Heap
+	exits        []Exit
+	defers       []*ssa.Defer
+	loops        map[*ssa.BasicBlock]*loopInfo
+	back         map[[2]int]bool
+	callStack    []*ssa.Function
+	inLoopOf     map[*ssa.BasicBlock][]*loopInfo
+	closures     map[string]*closureInfo
+	frameMS      *modSet   // targets of the function's modifies clause (top frame only)
+	dctx         *deferCtx // set while deferred calls run
 }
 
 // deferCtx is the panic state seen by deferred calls.
